@@ -60,8 +60,8 @@ def step (line : String) : String :=
     s!"foldGuard={showLimit Gen.foldGuard}"
   | "S" :: kind :: sc =>
     let (op, sticky) := if kind == "top" then (c.topOp, false) else (c.funcOp, true)
-    -- an uncapped loop is followed for 4 × the script length + 64 rounds, then reported as `fuelOut`
-    let fuel := match op.limit c.maxIterations with | some l => l | none => 4 * sc.length + 64
+    -- an uncapped loop is followed for max (4 × script length) (2 × the cap constant) + 64 rounds, then `fuelOut`
+    let fuel := match op.limit c.maxIterations with | some l => l | none => max (4 * sc.length) (2 * c.maxIterations) + 64
     let r := semLoop op c.maxIterations sticky (semOracle sc) fuel 0 false
     s!"exit={showSemExit r.exit} iters={r.iterations}"
   | "P" :: ks =>
@@ -73,7 +73,7 @@ def step (line : String) : String :=
     s!"done={b2s r.done} sweeps={r.sweeps} pass={ps} calls={cs}"
   | "F" :: sc =>
     let pending : Nat → Bool := fun k => (match sc[k]? with | some e => e | none => sc.getLast?.getD "0") == "1"
-    let fuel := match c.fgOp.limit c.maxIter with | some l => l | none => 4 * sc.length + 64
+    let fuel := match c.fgOp.limit c.maxIter with | some l => l | none => max (4 * sc.length) (2 * c.maxIter) + 64
     let r := fgLoop c.fgOp c.maxIter pending fuel 0
     s!"exit={showFgExit r.exit} iters={r.iterations}"
   | "R" :: k :: _ =>
